@@ -332,8 +332,9 @@ def callsite_cfg(cfg):
     if cfg["route"] == "full":
         return dict(name=cfg["name"], mcs={"m1": {"labels": ["s1", "s2"]}}, gmcs={"g1": {"labels": ["a"]}}, groups=grp,
                     datasets=[{"label": "d1", "mc": ["m1"], "gmc": ["g1"], "maxis": A3, "gaxis": [1.0, 2.0]}])
+    # d1 carries a weight that varies along the global axis: the problem solved at a global index is that index's weighted one
     return dict(name=cfg["name"], mcs={"m1": {"labels": ["s1", "s2"]}}, groups=grp,
-                datasets=[{"label": "d1", "mc": ["m1"], "maxis": A3, "gaxis": [1.0, 2.0]},
+                datasets=[{"label": "d1", "mc": ["m1"], "maxis": A3, "gaxis": [1.0, 2.0], "weight": True},
                           {"label": "d2", "mc": ["m1"], "maxis": A2 + [3.0], "gaxis": [2.0, 3.0]}])
 
 
@@ -368,6 +369,12 @@ def _run_callsite(cfg, rec):
             rec.unexpected(ctx, f"{cfg['name']}: objective evaluation raised {type(out).__name__}: {out}", "callsite:exception", wit)
             continue
         calls, direct_calls = out[3]
+        # ... and the (matrix, data) pair handed over at each global index is that index's documented problem (C02's obligations)
+        c02.check_objective(pcfg, rec, ctx, src, calls, out[2], fp_prefix="callsite")
+        for i_ in range(len(rec.candidates)):
+            c_ = rec.candidates[i_]
+            if c_[0].startswith("callsite") and "item" not in c_[2]:
+                rec.candidates[i_] = (c_[0], c_[1], dict(c_[2], item=cfg))
         fns = sorted({c["fn"] for c in calls} | {"direct:" + d for d in direct_calls})
         rec.check_all(ctx, [("every linear problem of the group (per index / linked / full model) is solved by the residual function the group names",
                              z3.BoolVal(bool(calls) and fns == [cfg["rf"]]), "callsite:wrong-function")], wit)
@@ -470,4 +477,7 @@ def _replay_callsite(cfg):
     if not used or set(used) != {cfg["rf"]}:
         return True, (f"{cfg['name']}: the group's residual function is {cfg['rf']!r}, but its linear problems were solved through "
                       f"{sorted(set(used))}")
+    v_, d_ = c02.replay({"cfg": pcfg, "env": {}})
+    if v_:
+        return True, d_
     return False, f"{len(used)} linear problems, all through {cfg['rf']}"
